@@ -21,6 +21,9 @@ var missingHeader = BatchHeader{
 // Parse a `cat-file --batch[-check]` output header line (including
 // the trailing LF). `spec`, if not "", is used in error messages.
 func ParseBatchHeader(spec string, header string) (BatchHeader, error) {
+	if !strings.HasSuffix(header, "\n") {
+		return missingHeader, fmt.Errorf("header line is not LF-terminated: %q", header)
+	}
 	header = header[:len(header)-1]
 	words := strings.Split(header, " ")
 	if words[len(words)-1] == "missing" {
@@ -28,6 +31,9 @@ func ParseBatchHeader(spec string, header string) (BatchHeader, error) {
 			spec = words[0]
 		}
 		return missingHeader, fmt.Errorf("missing object %s", spec)
+	}
+	if len(words) < 3 {
+		return missingHeader, fmt.Errorf("invalid header line: %q", header)
 	}
 
 	oid, err := NewOID(words[0])
